@@ -77,6 +77,24 @@ class Tr:
             if d in self.attr_map:
                 return self.attr_map[d], False
             raise Unsupported(f"unknown attribute {d}")
+        if isinstance(e, ast.UnaryOp) and isinstance(e.op, ast.Not):
+            t, b = self.expr(e.operand)
+            if not b:
+                raise Unsupported("not on a non-boolean")
+            return f"(negb {t})", True
+        if isinstance(e, ast.BoolOp) and isinstance(e.op, (ast.And, ast.Or)):
+            parts = [self.expr(v) for v in e.values]
+            if not all(b for _, b in parts):
+                raise Unsupported("and/or on non-booleans")
+            op = "&&" if isinstance(e.op, ast.And) else "||"
+            return "(" + f" {op} ".join(t for t, _ in parts) + ")%bool", True
+        if isinstance(e, ast.IfExp):
+            c, cb = self.expr(e.test)
+            a, ab = self.expr(e.body)
+            b2, bb = self.expr(e.orelse)
+            if not cb or ab != bb:
+                raise Unsupported("conditional expression")
+            return f"(if {c} then {a} else {b2})", ab
         if isinstance(e, ast.UnaryOp) and isinstance(e.op, ast.USub):
             t, b = self.expr(e.operand)
             return f"(- {self.num(t, b)})", False
@@ -158,6 +176,11 @@ class Tr:
         if ret_kind == "optR":
             if self.is_inf(v):
                 return "None"
+            if isinstance(v, ast.IfExp):
+                c, cb = self.expr(v.test)
+                if not cb:
+                    raise Unsupported("non-boolean condition")
+                return f"(if {c} then {self.ret(v.body, ret_kind)} else {self.ret(v.orelse, ret_kind)})"
             t, b = self.expr(v)
             return f"(Some {self.num(t, b)})"
         if ret_kind == "tuple3":
